@@ -471,3 +471,30 @@ M('C17', 'beacon-from-clock', SEC,
             }""", ['beacon:purity'], 'clock read in the beacon function')
 M('C17', 'roles-swapped', SEC,
   'compute_block_number_to_be_signed(block_number, self.security_parameter, self.step)', 'compute_block_number_to_be_signed(self.step, self.security_parameter, block_number)', ['formula-args'], 'tip and step swapped')
+
+# ---------------------------------------------------------------- C19
+ANV = 'mithril-client/src/utils/ancillary_verifier.rs'
+DTK = 'mithril-client/src/cardano_database_client/download_unpack/download_task.rs'
+M('C19', 'manifest-signature-optional', ANV,
+  """        let signature = manifest
+            .signature()
+            .ok_or(AncillaryVerificationError::SignatureMissing)?;
+        self.verifier
+            .verify(&manifest.compute_hash(), &signature)
+            .map_err(AncillaryVerificationError::SignatureInvalid)?;
+""", """        if let Some(signature) = manifest.signature() {
+            self.verifier
+                .verify(&manifest.compute_hash(), &signature)
+                .map_err(AncillaryVerificationError::SignatureInvalid)?;
+        }
+""", ['verify'], 'unsigned manifest accepted')
+M('C19', 'data-hashes-unchecked', ANV,
+  '        manifest.verify_data(temp_ancillary_dir).await?;\n', '', ['verify_data'], 'file hashes unchecked')
+M('C19', 'ancillary-unpacked-into-target', DTK,
+  '        self.download_unpack_file(ancillary_files_temp_dir, logger).await?;', '        self.download_unpack_file(target_dir, logger).await?;', ['unpack-dir'], 'ancillary archive unpacked into the database directory')
+M('C19', 'tempdir-kept-on-error', DTK,
+  """                    if let Err(e) = tokio::fs::remove_dir_all(&ancillary_files_temp_dir).await {""",
+  """                    if download_unpack_verify_result.is_err() {
+                        return download_unpack_verify_result;
+                    }
+                    if let Err(e) = tokio::fs::remove_dir_all(&ancillary_files_temp_dir).await {""", ['tempdir'], 'unverified files stay under the target directory')
